@@ -54,7 +54,7 @@ def go_env():
 # ---------------------------------------------------------------------------
 
 def scratch(name):
-    d = os.path.join(BUILD, name)
+    d = os.path.join(BUILD, f"{name}-{os.getpid()}")   # per process: concurrent runs of one property must not collide
     shutil.rmtree(d, ignore_errors=True)
     os.makedirs(d, exist_ok=True)
     return d
